@@ -430,6 +430,7 @@ impl<T> Matrix<T> {
     #[track_caller]
     pub fn remove_row(&mut self, row: Row) {
         assert!(self.rows() > 1);
+        assert!(row < self.rows(), "Row to remove must be < {}", self.rows());
         let mut r = 0;
         let mut c = 0;
         // drop the values at the specified row
@@ -458,6 +459,11 @@ impl<T> Matrix<T> {
     #[track_caller]
     pub fn remove_column(&mut self, column: Column) {
         assert!(self.columns() > 1);
+        assert!(
+            column < self.columns(),
+            "Column to remove must be < {}",
+            self.columns()
+        );
         let mut r = 0;
         let mut c = 0;
         // drop the values at the specified column
